@@ -498,7 +498,7 @@ def check(pid, tier):
         'known_findings': [f['raw'] for f in findings],
         'witness_drivers': ({'ran': True, 'built': wit['ok'], 'cases': wit['cases'], 'counterexamples': len(wit['witnesses']), 'wall_s': round(wit['wall'], 1),
                              'cmd': wit['cmd'], 'note': 'concrete boundary/random inputs against the real crate; bounded sampling, NOT counted in obligations/discharged',
-                             'log_tail': ('' if wit['ok'] else wit['log'][-800:])} if wit else {'ran': False}),
+                             'excluded_drivers_not_compiling': wit.get('excluded_drivers', []), 'log_tail': ('' if wit['ok'] else wit['log'][-800:])} if wit else {'ran': False}),
         'explanation': coverage_note(pid),
         'exit_code': exit_code,
     }
